@@ -14,6 +14,12 @@ R4f  `for I in A..=B { S }`   (no `continue`/`break` in S)
               while vx_more { S  if I < vx_last { I += 1; } else { vx_more = false; } } }`
      this is `RangeInclusive::next` written out (yield `start` while `start <= end`; stop after yielding `end`, without
      computing `end + 1`); A and B are evaluated once, in that order, as in the original.  S is kept verbatim.
+
+R9o  `E.and_then(|X| F)`   (closure literal with one identifier parameter, no `return` / `?` in F)
+        -> `(match E { Some(X) => F, None => None })`
+     the definition of `Option::and_then` (core/src/option.rs) with the closure beta-reduced; E and F are kept verbatim and
+     evaluated in the same order.  If E is not an `Option` (e.g. a `Result`) the rewritten text does not type-check, so a
+     wrong guess cannot go unnoticed.
 """
 from ..lexer import lex, sig
 from ..extract import match_close
@@ -166,4 +172,63 @@ def r4d_map_collect(text, log):
             return text
 
 
-RULES = {"R4d": r4d_map_collect, "R4f": r4f_range_inclusive}
+def _receiver_start(st, dot):
+    """st[dot] is the `.` before a method name; walk back over the postfix chain `a.b(c)[d].e` to its first token"""
+    j = dot - 1
+    while j >= 0:
+        t = st[j]
+        if t.kind == "punct" and t.text in ")]":
+            # find matching open by scanning back
+            depth = 0
+            k = j
+            while k >= 0:
+                if st[k].kind == "punct" and st[k].text in ")]}":
+                    depth += 1
+                elif st[k].kind == "punct" and st[k].text in "([{":
+                    depth -= 1
+                    if depth == 0:
+                        break
+                k -= 1
+            j = k - 1
+            # a call/index is preceded by its callee (ident) handled by the loop below
+            continue
+        if t.kind in ("ident", "number", "literal"):
+            if j - 1 >= 0 and st[j - 1].text == "." and not (j - 2 >= 0 and st[j - 2].text == "."):
+                j -= 2
+                continue
+            if j - 2 >= 0 and st[j - 1].text == ":" and st[j - 2].text == ":":
+                j -= 3
+                continue
+            return j
+        break
+    return j + 1
+
+
+def r9o_option_and_then(text, log):
+    while True:
+        st = sig(lex(text))
+        done = True
+        for i, t in enumerate(st):
+            if not (t.kind == "ident" and t.text == "and_then" and i > 0 and st[i - 1].text == "." and st[i + 1].text == "("):
+                continue
+            o = i + 1
+            c = match_close(st, o)
+            if not (st[o + 1].text == "|" and st[o + 2].kind == "ident" and st[o + 3].text == "|"):
+                continue
+            f_toks = [x.text for x in st[o + 4:c]]
+            if "return" in f_toks or "?" in f_toks:
+                raise RewriteError("R9o: `return`/`?` inside and_then closure")
+            rs = _receiver_start(st, i - 1)
+            e_txt = span_text(text, st, rs, i - 1)
+            x = st[o + 2].text
+            f_txt = span_text(text, st, o + 4, c)
+            new = "(match %s { Some(%s) => %s, None => None })" % (e_txt, x, f_txt)
+            text = text[:st[rs].start] + new + text[st[c].end:]
+            log["R9o Option::and_then(closure) -> match"] = log.get("R9o Option::and_then(closure) -> match", 0) + 1
+            done = False
+            break
+        if done:
+            return text
+
+
+RULES = {"R4d": r4d_map_collect, "R4f": r4f_range_inclusive, "R9o": r9o_option_and_then}
